@@ -191,6 +191,34 @@ def marshalling_python(ctx, rid, fn):
         ctx.inst(rid, fn, 'init_state', False, "init_state is never built")
     if fn.name == 'anneal_quso':
         H, NN, NB, JJ = ro.get('h', 'h'), ro.get('num_neighbors', 'num_neighbors'), ro.get('neighbors', 'neighbors'), ro.get('J', 'J')
+        # paired rows: one list of (neighbor, coupling) pairs per spin, projected into the three C arrays
+        def _defs(nm):
+            return [src(v) for s_, v in assignments_to(fn.node, nm) if isinstance(v, ast.AST)]
+        mNB = [re.fullmatch(r'\[(\w+) for \1, \w+ in chain(?:\.from_iterable)?\(\*?(\w+)\)\]', d) for d in _defs(NB)]
+        mJJ = [re.fullmatch(r'\[(\w+) for \w+, \1 in chain(?:\.from_iterable)?\(\*?(\w+)\)\]', d) for d in _defs(JJ)]
+        mNN = [re.fullmatch(r'\[len\((\w+)\) for \1 in (\w+)\]|list\(map\(len, (\w+)\)\)', d) for d in _defs(NN)]
+        if len(mNB) == 1 and mNB[0] and len(mJJ) == 1 and mJJ[0] and len(mNN) == 1 and mNN[0] and \
+                mNB[0].group(2) == mJJ[0].group(2) == (mNN[0].group(2) or mNN[0].group(3)):
+            RW = mNB[0].group(2)
+            n_ = re.escape(N)
+            dR = _defs(RW)
+            okR = len(dR) == 1 and re.fullmatch(r'\[\[\] for \w+ in range\(%s\)\]' % n_, dR[0]) is not None
+            dH = _defs(H)
+            okH = bool(dH) and re.fullmatch(r'\[0\.0?\] \* ' + n_, dH[0]) is not None
+            ctx.inst(rid, fn, 'O5 %s / %s sized by N' % (H, RW), okR and okH,
+                     "h and the rows of (neighbor, coupling) pairs have N entries" if okR and okH else
+                     "`%s` / `%s` are not created with N entries: len_state and the per-spin arrays disagree" % (H, RW))
+            apps = [c for c in calls_in(fn.node, 'append') if isinstance(c.func.value, ast.Subscript) and src(c.func.value.value) == RW]
+            okA = bool(apps) and all(len(c.args) == 1 and isinstance(c.args[0], ast.Tuple) and len(c.args[0].elts) == 2 for c in apps)
+            ctx.inst(rid, fn, apps[0] if apps else 'appends to %s' % RW, okA,
+                     "every neighbour is stored together with its coupling: neighbors, J and num_neighbors are projections of one list" if okA else
+                     "entries appended to `%s` are not (neighbor, coupling) pairs" % RW)
+            # the projections are taken after the rows are complete
+            late = [c for c in apps if any(g.reaches(s_, enclosing_stmt(c)) for nm in (NB, JJ, NN) for s_, v in assignments_to(fn.node, nm))]
+            ctx.inst(rid, fn, 'projections after the rows are complete', not late,
+                     "neighbors / J / num_neighbors are derived from the finished rows" if not late else
+                     "a (neighbor, coupling) pair is appended after the C arrays were derived from the rows")
+            return call
         # the flattened arrays handed to C may carry their own names: rows Y, flat X = list(chain(*Y))
         flat_of = {}
 
